@@ -221,6 +221,16 @@ def check(ctx, rule, name):
             n += 1
             ctx.ob(rule, name, 'rejection %s is still triggered by the reviewed %s' % (short(lab, 80), short(_facts.render(f), 200)), False,
                    problem='no rejecting exit with this result is triggered by the reviewed decision any more (the test was removed, weakened or now guards something else)')
+        if ent.get('sinks') and not ent.get('guarded') and 'Batch' in (ent.get('sinks') or ''):
+            seen_n = set()
+            for lab, f in _facts.narrowed(ent['exits'], actual):
+                key = (re.sub(r'\(.*$', '', lab), f)
+                if key in seen_n:
+                    continue
+                seen_n.add(key)
+                n += 1
+                ctx.ob(rule, name, 'durable write %s is not made conditional on a new test: %s' % (short(re.sub(r'^(?:in closure: )?call ', '', lab), 90), short(_facts.render(f), 200)), False,
+                       problem='a reviewed durable write is now skipped under a condition that the reviewed function never tested')
         seen_b = set()
         for g, f, lab in byp:
             key = (g, f)
